@@ -239,6 +239,8 @@ func runAll(repo, verif, tier string) int {
 // condition of both properties)
 var borrowCache = map[string][]Obligation{}
 
+var borrowMin = map[string]map[string]int{}
+
 func borrowRule(c *Ctx, fromProp, fromRule, asRule string) {
 	obls, cached := borrowCache[c.Repo+"|"+fromProp]
 	if !cached {
@@ -247,6 +249,7 @@ func borrowRule(c *Ctx, fromProp, fromRule, asRule string) {
 		c.core, c.server = sub.core, sub.server
 		obls = sub.R.Obls
 		borrowCache[c.Repo+"|"+fromProp] = obls
+		borrowMin[c.Repo+"|"+fromProp] = sub.R.MinCount
 	}
 	n := 0
 	for _, o := range obls {
@@ -254,6 +257,10 @@ func borrowRule(c *Ctx, fromProp, fromRule, asRule string) {
 			c.R.add(asRule, o.Construct, o.Status, o.Pos, o.Detail)
 			n++
 		}
+	}
+	// the lender's minimum instance count applies to the borrowed rule as well
+	if min := borrowMin[c.Repo+"|"+fromProp][fromRule]; n > 0 && n < min {
+		c.R.viol(asRule, "instance-count", "", fmt.Sprintf("rule matched %d instances, fewer than the %d confirmed by hand (rule is going vacuous: code moved or idiom changed)", n, min))
 	}
 	if n == 0 {
 		c.R.viol(asRule, "borrowed:"+fromRule, "", "rule "+fromRule+" produced no obligation")
@@ -284,7 +291,17 @@ func runMustCall(c *Ctx, prop string) {
 	}
 	c.R.Explain += " Also decided for the functions this property's table names (tables/mustcall.json): (" + prop + ".mustcall) every normal exit of F is preceded by the call K that does F's work, directly or through a helper (no shortcut / fast path around it); (" + prop + ".errdrop) no error of a module call, dynamic call or strconv / encoding/json / os call is dropped there (tested, returned, wrapped or classified on every path; reviewed exceptions in tables/errdrop_allow.json)."
 	ruleMustCallEntries(c, u, prop, core)
-	if prop != "C05" && prop != "C17" { // these two have their own error-propagation rules
+	if prop == "C09" {
+		// a failing statement ends its body: no evaluator function (eval…, exec…, handle… of pkg/exec) lets an error go
+		ruleErrDropOwned(c, u, prop, func(fname string) bool {
+			for _, pre := range []string{"pkg/exec.eval", "pkg/exec.exec", "pkg/exec.handle"} {
+				if strings.HasPrefix(fname, pre) {
+					return true
+				}
+			}
+			return false
+		})
+	} else if prop != "C05" && prop != "C17" { // these two have their own error-propagation rules
 		ruleErrDrop(c, u, prop)
 	}
 	if len(server) > 0 {
